@@ -205,24 +205,33 @@ def uninstrument():
 
 
 def explore(make_bodies, bound, budget=None, rnd=None, sample_second=None):
-    """enumerate schedules with <= bound preemptions (depth-first); yields (preemptions, Run).
+    """enumerate schedules with <= bound preemptions, level by level (every single preemption before any pair, so that a budget
+    never cuts off the late positions of a long initialisation); yields (preemptions, Run).
     make_bodies() must return fresh thread bodies over a fresh object each time.
-    budget: maximal number of runs; sample_second: if set, at depth >= 2 only this many random positions are tried."""
-    stack = [[]]
+    budget: maximal number of runs; sample_second: if set, at depth >= 2 only this many random positions are tried per parent."""
+    level = [[]]
     runs = 0
-    while stack:
-        pre = stack.pop()
-        r = Run(make_bodies(), pre).execute()
-        runs += 1
-        yield pre, r
-        if budget is not None and runs >= budget:
-            return
-        if len(pre) < bound and r.error is None:
-            last = pre[-1][0] if pre else 0
-            cands = []
-            for s in range(last + 1, r.step + 1):
-                for u in r.alive_at.get(s, ()):
-                    cands.append(pre + [(s, u)])
-            if pre and sample_second is not None and rnd is not None and len(cands) > sample_second:
-                cands = rnd.sample(cands, sample_second)
-            stack.extend(reversed(cands))
+    depth = 0
+    while level:
+        nxt = []
+        for pre in level:
+            r = Run(make_bodies(), pre).execute()
+            runs += 1
+            yield pre, r
+            if budget is not None and runs >= budget:
+                return
+            if len(pre) < bound and r.error is None:
+                last = pre[-1][0] if pre else 0
+                cands = []
+                for s in range(last + 1, r.step + 1):
+                    for u in r.alive_at.get(s, ()):
+                        cands.append(pre + [(s, u)])
+                if pre and sample_second is not None and rnd is not None and len(cands) > sample_second:
+                    cands = rnd.sample(cands, sample_second)
+                nxt.extend(cands)
+        depth += 1
+        if depth == 1 and budget is not None and rnd is not None and len(nxt) > (budget - runs) * 3 // 4:
+            nxt = sorted(rnd.sample(nxt, max(1, (budget - runs) * 3 // 4)))     # too long for the budget: positions sampled over the whole run
+        if depth >= 2 and rnd is not None:
+            rnd.shuffle(nxt)             # the budget may end inside this level: spread it over all parents
+        level = nxt
